@@ -156,6 +156,11 @@ func init() {
 		"math/rand.Seed": func(t *Thread, a []Value) Value { return nil },
 		"math/rand.Int31n": func(t *Thread, a []Value) Value {
 			r := t.run
+			if r.randPinned >= 0 {
+				v := r.e.tt.Const(32, uint64(r.randPinned))
+				r.randPinned += 1000
+				return v
+			}
 			v := r.fresh("rand.Int31n", 32)
 			n := a[0].(*Term)
 			r.assume(r.e.tt.BAnd(r.e.tt.Bin(OpSle, r.e.tt.Const(32, 0), v), r.e.tt.Bin(OpSlt, v, n)))
@@ -1079,6 +1084,10 @@ var verifAPI = map[string]intrinsic{
 			return a[1]
 		}
 		return t.run.e.tt.Const(64, uint64(int64(v)))
+	},
+	"verifSetRand": func(t *Thread, a []Value) Value {
+		t.run.randPinned = int64(t.run.concretize(a[0].(*Term), "rand"))
+		return nil
 	},
 	"verifCut": func(t *Thread, a []Value) Value {
 		t.run.cuts = append(t.run.cuts, argStr(a[0]))
